@@ -1,8 +1,635 @@
-(* Lemmas and proofs for C09 (model: Model/C09_SeqOps.v). *)
+(* Lemmas and proofs for C09, part 1 (model: Model/C09_SeqOps.v):
+   weakest-precondition rules for the draw monad, the slice-swapping crossovers, cxUniform,
+   and the mutations. *)
 From Coq Require Import List ZArith QArith Bool Lia Permutation Arith.
 From DV Require Import Base.PyList Base.C09_Lists Model.C09_SeqOps.
 Import ListNotations.
 Local Open Scope Z_scope.
 
+(* ------------------------------------------------------------------ wp rules *)
+Definition wp {R} (m : M R) (Q : R -> Prop) : Prop :=
+  forall ds, Forall draw_ok ds ->
+  match m ds with
+  | Ok (x, ds') => Forall draw_ok ds' /\ Q x
+  | Raise _ => False
+  | Mismatch => True
+  end.
+
+Lemma wp_always {R} (m : M R) Q : wp m Q -> always m Q.
+Proof.
+  intros H ds Hds. unfold run. specialize (H ds Hds).
+  destruct (m ds) as [[x [|d r]]|e|]; tauto.
+Qed.
+
+Lemma wp_ret {R} (x : R) (Q : R -> Prop) : Q x -> wp (ret x) Q.
+Proof. intros H ds Hds. cbn. auto. Qed.
+
+Lemma wp_bind {R T} (m : M R) (f : R -> M T) Q : wp m (fun x => wp (f x) Q) -> wp (bind m f) Q.
+Proof.
+  intros H ds Hds. unfold bind. specialize (H ds Hds).
+  destruct (m ds) as [[x ds']|e|]; auto. destruct H as [H1 H2]. exact (H2 ds' H1).
+Qed.
+
+Lemma wp_conseq {R} (m : M R) (Q Q' : R -> Prop) : wp m Q -> (forall x, Q x -> Q' x) -> wp m Q'.
+Proof.
+  intros H HQ ds Hds. specialize (H ds Hds). destruct (m ds) as [[x ds']|e|]; auto.
+  destruct H; auto.
+Qed.
+
+Lemma wp_random (Q : Q -> Prop) : (forall u, Q u) -> wp random Q.
+Proof.
+  intros H ds Hds. destruct ds as [|[u|lo hi r|n r|n r] ds]; cbn; auto.
+  inversion Hds; auto.
+Qed.
+
+Lemma wp_randint lo hi (Q : Z -> Prop) : lo <= hi -> (forall v, lo <= v <= hi -> Q v) -> wp (randint lo hi) Q.
+Proof.
+  intros Hle H ds Hds. destruct ds as [|[u|lo' hi' r|n r|n r] ds]; cbn; auto.
+  destruct ((lo' =? lo) && (hi' =? hi)) eqn:E; auto.
+  apply andb_true_iff in E. destruct E as [E1 E2]. apply Z.eqb_eq in E1, E2. subst.
+  inversion Hds as [|d l Hd Hl]; subst. destruct r as [v|]; cbn in Hd; [auto|lia].
+Qed.
+
+Lemma wp_randrange n (Q : Z -> Prop) : 0 < n -> (forall v, 0 <= v < n -> Q v) -> wp (randrange n) Q.
+Proof.
+  intros Hn H ds Hds. destruct ds as [|[u|lo' hi' r|n' r|n' r] ds]; cbn; auto.
+  destruct (n' =? n) eqn:E; auto. apply Z.eqb_eq in E. subst.
+  inversion Hds as [|d l Hd Hl]; subst. destruct r as [v|]; cbn in Hd; [auto|lia].
+Qed.
+
+Lemma wp_sample2 n (Q : Z * Z -> Prop) : 2 <= n ->
+  (forall a b, 0 <= a < n -> 0 <= b < n -> a <> b -> Q (a, b)) -> wp (sample2 n) Q.
+Proof.
+  intros Hn H ds Hds. destruct ds as [|[u|lo' hi' r|n' r|n' r] ds]; cbn; auto.
+  destruct (n' =? n) eqn:E; auto. apply Z.eqb_eq in E. subst.
+  inversion Hds as [|d l Hd Hl]; subst. destruct r as [[a b]|]; cbn in Hd; [|lia].
+  split; [assumption|]. apply H; tauto.
+Qed.
+
+Lemma wp_getI {A} (l : list A) i (Q : A -> Prop) : 0 <= i < zlen l ->
+  (forall x, nth_error l (Z.to_nat i) = Some x -> Q x) -> wp (getI l i) Q.
+Proof.
+  intros Hi H. unfold getI. rewrite py_get_in by exact Hi.
+  destruct (nth_error l (Z.to_nat i)) as [x|] eqn:E.
+  - apply wp_ret. auto.
+  - apply nth_error_None in E. unfold zlen in Hi. lia.
+Qed.
+
+Lemma wp_setI {A} (l : list A) i v (Q : list A -> Prop) : 0 <= i < zlen l ->
+  Q (set_nth l (Z.to_nat i) v) -> wp (setI l i v) Q.
+Proof. intros Hi H. unfold setI. rewrite py_set_in by exact Hi. apply wp_ret. exact H. Qed.
+
+Lemma wp_for_each_from {I St} (Inv : nat -> St -> Prop) (body : I -> St -> M St) (suf : list I) :
+  forall (k0 : nat) (s : St),
+  (forall (j : nat) i s, nth_error suf j = Some i -> Inv (k0 + j)%nat s -> wp (body i s) (Inv (S (k0 + j))%nat)) ->
+  Inv k0 s -> wp (for_each suf body s) (Inv (k0 + length suf)%nat).
+Proof.
+  induction suf as [|i suf IH]; intros k0 s Hstep H0; cbn [for_each length].
+  - apply wp_ret. now rewrite Nat.add_0_r.
+  - apply wp_bind. eapply wp_conseq.
+    + apply (Hstep 0%nat i s); [reflexivity|]. now rewrite Nat.add_0_r.
+    + intros s' Hs'. rewrite Nat.add_0_r in Hs'.
+      replace (k0 + S (length suf))%nat with (S k0 + length suf)%nat by lia.
+      apply IH; [|exact Hs'].
+      intros j i' s'' Hn Hi. replace (S k0 + j)%nat with (k0 + S j)%nat in * by lia.
+      apply Hstep; assumption.
+Qed.
+
+Lemma wp_for_each {I St} (Inv : nat -> St -> Prop) (body : I -> St -> M St) (idx : list I) s (Q : St -> Prop) :
+  Inv 0%nat s ->
+  (forall (k : nat) i s, nth_error idx k = Some i -> Inv k s -> wp (body i s) (Inv (S k))) ->
+  (forall s, Inv (length idx) s -> Q s) ->
+  wp (for_each idx body s) Q.
+Proof.
+  intros H0 Hstep HQ. eapply wp_conseq.
+  - apply (wp_for_each_from Inv body idx 0%nat s); [|exact H0].
+    intros j i s' Hn Hi. cbn [Nat.add] in *. apply Hstep; assumption.
+  - cbn [Nat.add]. exact HQ.
+Qed.
+
+Lemma nth_error_py_range n k i : nth_error (py_range (Z.of_nat n)) k = Some i -> i = Z.of_nat k /\ (k < n)%nat.
+Proof.
+  rewrite py_range_nat. intro H.
+  assert (Hk : (k < n)%nat).
+  { assert (Hs : nth_error (map Z.of_nat (seq 0 n)) k <> None) by congruence.
+    apply nth_error_Some in Hs. now rewrite map_length, seq_length in Hs. }
+  split; [|exact Hk].
+  rewrite nth_error_map, nth_error_nth' with (d := 0%nat) in H by (rewrite seq_length; lia).
+  rewrite seq_nth in H by lia. cbn in H. congruence.
+Qed.
+
+Lemma py_range_length n : length (py_range (Z.of_nat n)) = n.
+Proof. rewrite py_range_nat. now rewrite map_length, seq_length. Qed.
+
+Lemma nth_error_py_range3 a b k i : a <= b ->
+  nth_error (py_range3 a b 1) k = Some i -> i = a + Z.of_nat k /\ a + Z.of_nat k < b.
+Proof.
+  intros Hab. rewrite py_range3_step1 by exact Hab. intro H.
+  assert (Hk : (k < Z.to_nat (b - a))%nat).
+  { assert (Hs : nth_error (map (fun i => a + Z.of_nat i) (seq 0 (Z.to_nat (b - a)))) k <> None) by congruence.
+    apply nth_error_Some in Hs. now rewrite map_length, seq_length in Hs. }
+  rewrite nth_error_map, nth_error_nth' with (d := 0%nat) in H by (rewrite seq_length; lia).
+  rewrite seq_nth in H by lia. cbn in H. split; [congruence|lia].
+Qed.
+
+Lemma py_range3_length a b : a <= b -> length (py_range3 a b 1) = Z.to_nat (b - a).
+Proof. intro H. rewrite py_range3_step1 by exact H. now rewrite map_length, seq_length. Qed.
+
+(* ------------------------------------------------------------------ slice swaps *)
+Section Generic.
+Context {A : Type}.
+Implicit Types p c : list A.
+
+(* what the three slice crossovers compute, with nat cut points *)
+Definition tails_swapped (p1 p2 c1 c2 : list A) (a1 a2 : nat) : Prop :=
+  c1 = firstn a1 p1 ++ skipn a2 p2 /\ c2 = firstn a2 p2 ++ skipn a1 p1.
+
+Definition mids_swapped (p1 p2 c1 c2 : list A) (a b : nat) : Prop :=
+  c1 = firstn a p1 ++ firstn (b - a) (skipn a p2) ++ skipn b p1 /\
+  c2 = firstn a p2 ++ firstn (b - a) (skipn a p1) ++ skipn b p2.
+
+Lemma swap_slices_tails p1 p2 a1 a2 : 0 <= a1 <= zlen p1 -> 0 <= a2 <= zlen p2 ->
+  tails_swapped p1 p2 (fst (swap_slices p1 p2 a1 a2 None None)) (snd (swap_slices p1 p2 a1 a2 None None))
+                (Z.to_nat a1) (Z.to_nat a2).
+Proof.
+  intros H1 H2. unfold swap_slices, tails_swapped. cbn [fst snd].
+  now rewrite !py_slice_tail, !py_slice_assign_tail by assumption.
+Qed.
+
+Lemma swap_slices_mids p1 p2 a b : 0 <= a <= b -> b <= zlen p1 -> b <= zlen p2 ->
+  mids_swapped p1 p2 (fst (swap_slices p1 p2 a a (Some b) (Some b))) (snd (swap_slices p1 p2 a a (Some b) (Some b)))
+               (Z.to_nat a) (Z.to_nat b).
+Proof.
+  intros H1 H2 H3. unfold swap_slices, mids_swapped. cbn [fst snd].
+  change (py_slice ?l (Some a) (Some b) 1) with (py_sub l a b).
+  rewrite !py_sub_in, !py_slice_assign_in by assumption.
+  now replace (Z.to_nat (b - a)) with (Z.to_nat b - Z.to_nat a)%nat by lia.
+Qed.
+
+Lemma tails_swapped_perm p1 p2 c1 c2 a1 a2 : tails_swapped p1 p2 c1 c2 a1 a2 -> Permutation (c1 ++ c2) (p1 ++ p2).
+Proof. intros [-> ->]. apply perm_swap_tails. Qed.
+
+Lemma tails_swapped_length p1 p2 c1 c2 a1 a2 : (a1 <= length p1)%nat -> (a2 <= length p2)%nat ->
+  tails_swapped p1 p2 c1 c2 a1 a2 ->
+  (length c1 = a1 + (length p2 - a2) /\ length c2 = a2 + (length p1 - a1))%nat.
+Proof.
+  intros H1 H2 [-> ->]. rewrite !app_length, !firstn_length, !skipn_length. lia.
+Qed.
+
+Lemma tails_swapped_locus p1 p2 c1 c2 a : (a <= length p1)%nat -> (a <= length p2)%nat ->
+  tails_swapped p1 p2 c1 c2 a a ->
+  forall i, ((i < a)%nat -> kept_at p1 p2 c1 c2 i) /\ ((a <= i)%nat -> swapped_at p1 p2 c1 c2 i).
+Proof.
+  intros H1 H2 [-> ->] i. unfold kept_at, swapped_at. split; intro Hi.
+  - rewrite !nth_error_app1 by (rewrite firstn_length; lia).
+    now rewrite !nth_error_firstn by lia.
+  - rewrite !nth_error_app2 by (rewrite firstn_length; lia).
+    rewrite !firstn_length, !nth_error_skipn.
+    rewrite !Nat.min_l by lia. split; f_equal; lia.
+Qed.
+
+Lemma nth_error_mid3 (l l' : list A) a b i : (a <= b)%nat -> (b <= length l)%nat -> (b <= length l')%nat ->
+  nth_error (firstn a l ++ firstn (b - a) (skipn a l') ++ skipn b l) i =
+  if (a <=? i)%nat && (i <? b)%nat then nth_error l' i else nth_error l i.
+Proof.
+  intros Hab Hb Hb'.
+  destruct (Nat.leb_spec a i) as [Hai|Hai]; cbn [andb].
+  - rewrite nth_error_app2 by (rewrite firstn_length; lia).
+    rewrite firstn_length, Nat.min_l by lia.
+    destruct (Nat.ltb_spec i b) as [Hib|Hib].
+    + rewrite nth_error_app1 by (rewrite firstn_length, skipn_length; lia).
+      rewrite nth_error_firstn by lia. rewrite nth_error_skipn. f_equal; lia.
+    + rewrite nth_error_app2 by (rewrite firstn_length, skipn_length; lia).
+      rewrite firstn_length, skipn_length, Nat.min_l by lia.
+      rewrite nth_error_skipn. f_equal; lia.
+  - rewrite nth_error_app1 by (rewrite firstn_length; lia).
+    now rewrite nth_error_firstn by lia.
+Qed.
+
+Lemma mids_swapped_perm p1 p2 c1 c2 a b : (a <= b)%nat -> mids_swapped p1 p2 c1 c2 a b -> Permutation (c1 ++ c2) (p1 ++ p2).
+Proof. intros H [-> ->]. now apply perm_swap_mid. Qed.
+
+Lemma mids_swapped_length p1 p2 c1 c2 a b : (a <= b)%nat -> (b <= length p1)%nat -> (b <= length p2)%nat ->
+  mids_swapped p1 p2 c1 c2 a b -> length c1 = length p1 /\ length c2 = length p2.
+Proof.
+  intros H H1 H2 [-> ->]. rewrite !app_length, !firstn_length, !skipn_length. lia.
+Qed.
+
+Lemma mids_swapped_locus p1 p2 c1 c2 a b : (a <= b)%nat -> (b <= length p1)%nat -> (b <= length p2)%nat ->
+  mids_swapped p1 p2 c1 c2 a b ->
+  forall i, ((a <= i < b)%nat -> swapped_at p1 p2 c1 c2 i) /\ (~ (a <= i < b)%nat -> kept_at p1 p2 c1 c2 i).
+Proof.
+  intros H H1 H2 [-> ->] i. unfold kept_at, swapped_at.
+  rewrite !nth_error_mid3 by assumption.
+  destruct (Nat.leb_spec a i), (Nat.ltb_spec i b); cbn [andb]; split; intro; try lia; auto.
+Qed.
+
+(* pointwise characterisation -> multiset conservation *)
+Lemma locus_perm p1 : forall p2 c1 c2, length c1 = length p1 -> length c2 = length p2 ->
+  (forall i, locus_ok p1 p2 c1 c2 i) -> Permutation (c1 ++ c2) (p1 ++ p2).
+Proof.
+  induction p1 as [|x p1 IH]; intros p2 c1 c2 L1 L2 H.
+  - destruct c1; [|discriminate]. cbn [app].
+    assert (E : c2 = p2).
+    { apply nth_error_ext. intro i. destruct (H i) as [[_ K]|[K1 K2]]; [exact K|].
+      rewrite K2. destruct i; cbn in *; auto. }
+    now rewrite E.
+  - destruct c1 as [|y c1]; [discriminate|].
+    destruct p2 as [|z p2].
+    + destruct c2; [|discriminate]. rewrite !app_nil_r.
+      assert (E : y :: c1 = x :: p1).
+      { apply nth_error_ext. intro i. destruct (H i) as [[K _]|[K1 K2]]; [exact K|].
+        rewrite K1. destruct i; cbn in *; auto. }
+      now rewrite E.
+    + destruct c2 as [|w c2]; [discriminate|].
+      assert (T : Permutation (c1 ++ c2) (p1 ++ p2)).
+      { apply IH; [cbn in L1; lia|cbn in L2; lia|].
+        intro i. exact (H (S i)). }
+      change (Permutation ([y] ++ c1 ++ [w] ++ c2) ([x] ++ p1 ++ [z] ++ p2)).
+      assert (T' : Permutation ([y] ++ [w] ++ c1 ++ c2) ([x] ++ [z] ++ p1 ++ p2)).
+      { destruct (H 0%nat) as [[K1 K2]|[K1 K2]]; cbn in K1, K2; inversion K1; inversion K2; subst.
+        - now rewrite T.
+        - rewrite T. perm_solve. }
+      transitivity ([y] ++ [w] ++ c1 ++ c2); [perm_solve|].
+      rewrite T'. perm_solve.
+Qed.
+
+(* ------------------------------------------------------------------ cxOnePoint *)
+Definition one_point_post (p1 p2 : list A) (c : list A * list A) : Prop :=
+  exists cx : nat, (1 <= cx < Nat.min (length p1) (length p2))%nat /\ tails_swapped p1 p2 (fst c) (snd c) cx cx.
+
+Lemma zmin_len p1 p2 : Z.min (zlen p1) (zlen p2) = Z.of_nat (Nat.min (length p1) (length p2)).
+Proof. unfold zlen. lia. Qed.
+
+Lemma wp_cxOnePoint p1 p2 : 2 <= Z.min (zlen p1) (zlen p2) -> wp (cxOnePoint p1 p2) (one_point_post p1 p2).
+Proof.
+  intro H. unfold cxOnePoint. apply wp_bind. apply wp_randint; [lia|].
+  intros v Hv. apply wp_ret. exists (Z.to_nat v). rewrite zmin_len in *. split; [lia|].
+  apply swap_slices_tails; unfold zlen; lia.
+Qed.
+
+Lemma cxOnePoint_guard p1 p2 : Z.min (zlen p1) (zlen p2) < 2 -> only_raises (cxOnePoint p1 p2) ValueError.
+Proof.
+  intros H ds Hds. unfold run, cxOnePoint, bind, randint.
+  destruct ds as [|[u|lo hi r|n r|n r] ds]; auto.
+  destruct ((lo =? 1) && (hi =? Z.min (zlen p1) (zlen p2) - 1)) eqn:E; auto.
+  apply andb_true_iff in E. destruct E as [E1 E2]. apply Z.eqb_eq in E1, E2. subst.
+  inversion Hds as [|d l Hd Hl]; subst. destruct r as [v|]; cbn in Hd; [lia|auto].
+Qed.
+
+(* ------------------------------------------------------------------ cxTwoPoint / cxESTwoPoint *)
+Lemma two_points_range size d1 d2 : 1 <= d1 <= size -> 1 <= d2 <= size - 1 ->
+  1 <= fst (two_points d1 d2) < snd (two_points d1 d2) /\ snd (two_points d1 d2) <= size.
+Proof. intros H1 H2. unfold two_points. destruct (d2 >=? d1) eqn:E; cbn [fst snd]; lia. Qed.
+
+Lemma two_points_range0 size d1 d2 : 0 <= d1 <= size -> 0 <= d2 <= size - 1 ->
+  0 <= fst (two_points d1 d2) < snd (two_points d1 d2) /\ snd (two_points d1 d2) <= size.
+Proof. intros H1 H2. unfold two_points. destruct (d2 >=? d1) eqn:E; cbn [fst snd]; lia. Qed.
+
+Definition two_point_post (p1 p2 : list A) (c : list A * list A) : Prop :=
+  exists a b : nat, (1 <= a < b)%nat /\ (b <= Nat.min (length p1) (length p2))%nat /\
+                    mids_swapped p1 p2 (fst c) (snd c) a b.
+
+Lemma wp_cxTwoPoint p1 p2 : 2 <= Z.min (zlen p1) (zlen p2) -> wp (cxTwoPoint p1 p2) (two_point_post p1 p2).
+Proof.
+  intro H. unfold cxTwoPoint. apply wp_bind. apply wp_randint; [lia|]. intros d1 H1.
+  apply wp_bind. apply wp_randint; [lia|]. intros d2 H2.
+  pose proof (two_points_range _ d1 d2 H1 H2) as Hr.
+  destruct (two_points d1 d2) as [a b]. cbn [fst snd] in Hr.
+  apply wp_ret. exists (Z.to_nat a), (Z.to_nat b). rewrite zmin_len in *.
+  split; [lia|]. split; [lia|]. apply swap_slices_mids; unfold zlen; lia.
+Qed.
+
+Lemma cxTwoPoint_guard p1 p2 : Z.min (zlen p1) (zlen p2) < 2 -> only_raises (cxTwoPoint p1 p2) ValueError.
+Proof.
+  intros H ds Hds. unfold run, cxTwoPoint, bind, randint.
+  destruct ds as [|[u|lo hi r|n r|n r] ds]; auto.
+  destruct ((lo =? 1) && (hi =? Z.min (zlen p1) (zlen p2))) eqn:E; auto.
+  apply andb_true_iff in E. destruct E as [E1 E2]. apply Z.eqb_eq in E1, E2. subst.
+  inversion Hds as [|d l Hd Hl]; subst. destruct r as [v|]; cbn in Hd; [|auto].
+  destruct ds as [|[u|lo hi r|n r|n r] ds]; auto.
+  destruct ((lo =? 1) && (hi =? Z.min (zlen p1) (zlen p2) - 1)) eqn:E; auto.
+  apply andb_true_iff in E. destruct E as [E1 E2]. apply Z.eqb_eq in E1, E2. subst.
+  inversion Hl as [|d l' Hd' Hl']; subst. destruct r as [v'|]; cbn in Hd'; [lia|auto].
+Qed.
+
+(* ------------------------------------------------------------------ cxMessyOnePoint *)
+Definition messy_post (p1 p2 : list A) (c : list A * list A) : Prop :=
+  exists a1 a2 : nat, (a1 <= length p1)%nat /\ (a2 <= length p2)%nat /\ tails_swapped p1 p2 (fst c) (snd c) a1 a2.
+
+Lemma wp_cxMessyOnePoint p1 p2 : wp (cxMessyOnePoint p1 p2) (messy_post p1 p2).
+Proof.
+  unfold cxMessyOnePoint. assert (H1 := zlen_nonneg p1). assert (H2 := zlen_nonneg p2).
+  apply wp_bind. apply wp_randint; [lia|]. intros d1 Hd1.
+  apply wp_bind. apply wp_randint; [lia|]. intros d2 Hd2.
+  apply wp_ret. exists (Z.to_nat d1), (Z.to_nat d2). unfold zlen in *.
+  split; [lia|]. split; [lia|]. apply swap_slices_tails; unfold zlen; lia.
+Qed.
+
+(* ------------------------------------------------------------------ cxUniform *)
+Lemma wp_swap_at (l1 l2 : list A) i : 0 <= i < zlen l1 -> i < zlen l2 ->
+  wp (swap_at i (l1, l2))
+     (fun r => exists x1 x2, nth_error l1 (Z.to_nat i) = Some x1 /\ nth_error l2 (Z.to_nat i) = Some x2 /\
+                             r = (set_nth l1 (Z.to_nat i) x2, set_nth l2 (Z.to_nat i) x1)).
+Proof.
+  intros H1 H2. unfold swap_at.
+  apply wp_bind. apply wp_getI; [lia|]. intros x2 E2.
+  apply wp_bind. apply wp_getI; [lia|]. intros x1 E1.
+  apply wp_bind. apply wp_setI; [lia|].
+  apply wp_bind. apply wp_setI; [lia|].
+  apply wp_ret. exists x1, x2. auto.
+Qed.
+
+(* state after the loop has processed loci < k, where `sw i` says whether locus i was swapped *)
+Definition uniform_inv (p1 p2 : list A) (k : nat) (s : list A * list A) : Prop :=
+  length (fst s) = length p1 /\ length (snd s) = length p2 /\
+  forall i, ((i < k)%nat -> locus_ok p1 p2 (fst s) (snd s) i) /\ ((k <= i)%nat -> kept_at p1 p2 (fst s) (snd s) i).
+
+Lemma uniform_inv_swap p1 p2 k l1 l2 x1 x2 :
+  uniform_inv p1 p2 k (l1, l2) -> nth_error l1 k = Some x1 -> nth_error l2 k = Some x2 ->
+  uniform_inv p1 p2 (S k) (set_nth l1 k x2, set_nth l2 k x1).
+Proof.
+  intros (L1 & L2 & H) E1 E2. cbn [fst snd] in *.
+  assert (K1 : (k < length l1)%nat) by (apply nth_error_Some; congruence).
+  assert (K2 : (k < length l2)%nat) by (apply nth_error_Some; congruence).
+  unfold uniform_inv. cbn [fst snd].
+  split; [now rewrite set_nth_length|]. split; [now rewrite set_nth_length|].
+  intro i. unfold locus_ok, kept_at, swapped_at. rewrite !nth_error_set_nth.
+  destruct (Nat.eqb_spec i k) as [->|Hne].
+  - replace (k <? length l1)%nat with true by (symmetry; apply Nat.ltb_lt; lia).
+    replace (k <? length l2)%nat with true by (symmetry; apply Nat.ltb_lt; lia).
+    destruct (H k) as [_ Hk]. destruct (Hk (le_n k)) as [Ka Kb].
+    split; intro; [|lia]. right. rewrite <- Ka, <- Kb. auto.
+  - destruct (H i) as [Ha Hb]. split; intro Hi.
+    + destruct (Nat.lt_ge_cases i k) as [Hlt|Hge]; [exact (Ha Hlt)|lia].
+    + apply Hb. lia.
+Qed.
+
+Lemma uniform_inv_keep p1 p2 k s : uniform_inv p1 p2 k s -> uniform_inv p1 p2 (S k) s.
+Proof.
+  intros (L1 & L2 & H). split; [exact L1|]. split; [exact L2|].
+  intro i. destruct (H i) as [Ha Hb]. split; intro Hi.
+  - destruct (Nat.lt_ge_cases i k) as [Hlt|Hge]; [exact (Ha Hlt)|]. left. apply Hb. lia.
+  - apply Hb. lia.
+Qed.
+
+Definition uniform_post (p1 p2 : list A) (c : list A * list A) : Prop :=
+  length (fst c) = length p1 /\ length (snd c) = length p2 /\
+  forall i, locus_ok p1 p2 (fst c) (snd c) i /\
+            ((Nat.min (length p1) (length p2) <= i)%nat -> kept_at p1 p2 (fst c) (snd c) i).
+
+Lemma wp_cxUniform p1 p2 indpb : wp (cxUniform p1 p2 indpb) (uniform_post p1 p2).
+Proof.
+  unfold cxUniform. rewrite zmin_len. set (n := Nat.min (length p1) (length p2)).
+  apply (wp_for_each (uniform_inv p1 p2)).
+  - split; [reflexivity|]. split; [reflexivity|]. intro i. split; intro; [lia|split; reflexivity].
+  - intros k i [l1 l2] Hn Hinv. apply nth_error_py_range in Hn. destruct Hn as [-> Hk].
+    apply wp_bind. apply wp_random. intro u.
+    destruct (qltb u indpb).
+    + destruct Hinv as (L1 & L2 & H). cbn [fst snd] in *.
+      eapply wp_conseq; [apply wp_swap_at; unfold zlen; lia|].
+      intros r (x1 & x2 & E1 & E2 & ->). rewrite Nat2Z.id in *.
+      apply uniform_inv_swap; [|assumption|assumption]. split; [exact L1|]. split; [exact L2|exact H].
+    + apply wp_ret. now apply uniform_inv_keep.
+  - intros s (L1 & L2 & H). rewrite py_range_length in H.
+    split; [exact L1|]. split; [exact L2|]. intro i. destruct (H i) as [Ha Hb].
+    split; [|exact Hb].
+    destruct (Nat.lt_ge_cases i n) as [Hlt|Hge]; [exact (Ha Hlt)|left; exact (Hb Hge)].
+Qed.
+
+(* ------------------------------------------------------------------ mutShuffleIndexes *)
+Lemma wp_mutShuffleIndexes (p : list A) indpb : zlen p <> 1 ->
+  wp (mutShuffleIndexes p indpb) (fun c => Permutation c p).
+Proof.
+  intro Hn. unfold mutShuffleIndexes.
+  destruct (Z.eq_dec (zlen p) 0) as [Hz|Hz].
+  { rewrite Hz. cbn. apply wp_ret. reflexivity. }
+  assert (H2 : 2 <= zlen p) by (pose proof (zlen_nonneg p); lia).
+  unfold zlen at 1.
+  apply (wp_for_each (fun (_ : nat) (l : list A) => Permutation l p)).
+  - reflexivity.
+  - intros k i l Hk Hinv. apply nth_error_py_range in Hk. destruct Hk as [-> Hk].
+    assert (Hl : length l = length p) by (now apply Permutation_length).
+    apply wp_bind. apply wp_random. intro u.
+    destruct (qltb u indpb); [|apply wp_ret; exact Hinv].
+    apply wp_bind. apply wp_randint; [lia|]. intros r Hr.
+    set (j := if r >=? Z.of_nat k then r + 1 else r).
+    assert (Hj : 0 <= j < zlen l) by (unfold j, zlen in *; destruct (r >=? Z.of_nat k) eqn:E; lia).
+    apply wp_bind. apply wp_getI; [exact Hj|]. intros x Ex.
+    apply wp_bind. apply wp_getI; [unfold zlen in *; lia|]. intros y Ey.
+    apply wp_bind. apply wp_setI; [unfold zlen in *; lia|].
+    apply wp_bind. apply wp_setI; [rewrite zlen_set_nth; exact Hj|].
+    apply wp_ret. rewrite Nat2Z.id in *.
+    rewrite <- (nth_error_nth _ _ x Ex), <- (nth_error_nth _ _ x Ey).
+    rewrite perm_set_nth_swap; [exact Hinv| |]; unfold zlen in *; lia.
+  - auto.
+Qed.
+
+(* ------------------------------------------------------------------ mutInversion *)
+Definition inversion_post (p c : list A) : Prop :=
+  exists s e : nat, (s <= e <= length p)%nat /\
+                    c = firstn s p ++ rev (firstn (e - s) (skipn s p)) ++ skipn e p.
+
+Lemma wp_mutInversion (p : list A) : wp (mutInversion p) (inversion_post p).
+Proof.
+  unfold mutInversion. destruct (zlen p =? 0) eqn:E.
+  - apply wp_ret. exists 0%nat, 0%nat. split; [lia|]. reflexivity.
+  - assert (Hp : 0 < zlen p) by (pose proof (zlen_nonneg p); lia).
+    apply wp_bind. apply wp_randrange; [exact Hp|]. intros i1 H1.
+    apply wp_bind. apply wp_randrange; [exact Hp|]. intros i2 H2.
+    apply wp_ret. exists (Z.to_nat (Z.min i1 i2)), (Z.to_nat (Z.max i1 i2)).
+    split; [unfold zlen in *; lia|].
+    rewrite py_slice_rev, py_sub_in, py_slice_assign_in by lia.
+    now replace (Z.to_nat (Z.max i1 i2 - Z.min i1 i2)) with (Z.to_nat (Z.max i1 i2) - Z.to_nat (Z.min i1 i2))%nat by lia.
+Qed.
+
+Lemma inversion_post_perm p c : inversion_post p c -> Permutation c p.
+Proof.
+  intros (s & e & H & ->). rewrite (mid_split p s e) at 4 by lia.
+  apply Permutation_app_head. apply Permutation_app_tail. symmetry. apply Permutation_rev.
+Qed.
+
+End Generic.
+
+(* ------------------------------------------------------------------ cxESTwoPoint *)
+Lemma combine_skipn {A B} (l : list A) (l' : list B) n : skipn n (combine l l') = combine (skipn n l) (skipn n l').
+Proof.
+  revert l l'; induction n as [|n IH]; intros l l'; [reflexivity|].
+  destruct l; [reflexivity|]. destruct l'; [cbn; now destruct (skipn n l)|]. cbn. apply IH.
+Qed.
+
+Lemma combine_app {A B} (a1 a2 : list A) (b1 b2 : list B) : length a1 = length b1 ->
+  combine (a1 ++ a2) (b1 ++ b2) = combine a1 b1 ++ combine a2 b2.
+Proof.
+  revert b1; induction a1 as [|x a1 IH]; intros [|y b1] H; try discriminate; [reflexivity|].
+  cbn. f_equal. apply IH. cbn in H; lia.
+Qed.
+
+Definition es_post {A B} (ind1 ind2 : list A * list B) (c : (list A * list B) * (list A * list B)) : Prop :=
+  exists a b : nat, (1 <= a < b)%nat /\ (b <= Nat.min (length (fst ind1)) (length (fst ind2)))%nat /\
+    mids_swapped (fst ind1) (fst ind2) (fst (fst c)) (fst (snd c)) a b /\
+    mids_swapped (snd ind1) (snd ind2) (snd (fst c)) (snd (snd c)) a b.
+
+Lemma wp_cxESTwoPoint {A B} (ind1 ind2 : list A * list B) :
+  2 <= Z.min (zlen (fst ind1)) (zlen (fst ind2)) ->
+  length (snd ind1) = length (fst ind1) -> length (snd ind2) = length (fst ind2) ->
+  wp (cxESTwoPoint ind1 ind2) (es_post ind1 ind2).
+Proof.
+  intros H L1 L2. unfold cxESTwoPoint.
+  apply wp_bind. apply wp_randint; [lia|]. intros d1 H1.
+  apply wp_bind. apply wp_randint; [lia|]. intros d2 H2.
+  pose proof (two_points_range _ d1 d2 H1 H2) as Hr.
+  destruct (two_points d1 d2) as [a b]. cbn [fst snd] in Hr.
+  rewrite zmin_len in *.
+  pose proof (swap_slices_mids (fst ind1) (fst ind2) a b) as G.
+  pose proof (swap_slices_mids (snd ind1) (snd ind2) a b) as S.
+  destruct (swap_slices (fst ind1) (fst ind2) a a (Some b) (Some b)) as [g1 g2].
+  destruct (swap_slices (snd ind1) (snd ind2) a a (Some b) (Some b)) as [s1 s2].
+  apply wp_ret. exists (Z.to_nat a), (Z.to_nat b). cbn [fst snd] in *.
+  split; [lia|]. split; [lia|].
+  split; [apply G|apply S]; unfold zlen; lia.
+Qed.
+
+(* gene and strategy move together: the children's (gene, strategy) pairs are the two-point
+   crossover of the parents' pairs *)
+Lemma es_pairs {A B} (g1 g2 cg1 cg2 : list A) (s1 s2 cs1 cs2 : list B) a b :
+  (a <= b)%nat -> (b <= length g1)%nat -> (b <= length g2)%nat ->
+  length s1 = length g1 -> length s2 = length g2 ->
+  mids_swapped g1 g2 cg1 cg2 a b -> mids_swapped s1 s2 cs1 cs2 a b ->
+  mids_swapped (combine g1 s1) (combine g2 s2) (combine cg1 cs1) (combine cg2 cs2) a b.
+Proof.
+  intros Hab B1 B2 L1 L2 [-> ->] [-> ->]. unfold mids_swapped.
+  rewrite !combine_app, !combine_firstn, !combine_skipn, !combine_firstn;
+    rewrite ?firstn_length, ?skipn_length; try lia.
+  split; reflexivity.
+Qed.
+
+(* ------------------------------------------------------------------ mutFlipBit *)
 Lemma flip_gene_truthy g : truthy (flip_gene g) = negb (truthy g).
 Proof. destruct g as [z|b|z]; cbn; try reflexivity; destruct (z =? 0); reflexivity. Qed.
+
+Definition same_type (g h : gene) : Prop :=
+  match g, h with GInt _, GInt _ => True | GBool _, GBool _ => True | GFloat _, GFloat _ => True | _, _ => False end.
+
+Lemma flip_gene_type g : same_type g (flip_gene g).
+Proof. destruct g; exact I. Qed.
+
+(* a bit: 0 / 1 of one of the three types; its complement *)
+Definition is_bit (g : gene) : Prop :=
+  match g with GInt z => z = 0 \/ z = 1 | GBool _ => True | GFloat z => z = 0 \/ z = 1 end.
+Definition complement (g : gene) : gene :=
+  match g with GInt z => GInt (1 - z) | GBool b => GBool (negb b) | GFloat z => GFloat (1 - z) end.
+
+Lemma flip_gene_bit g : is_bit g -> flip_gene g = complement g /\ is_bit (flip_gene g).
+Proof.
+  destruct g as [z|b|z]; cbn; intro H.
+  - destruct H as [-> | ->]; cbn; auto.
+  - auto.
+  - destruct H as [-> | ->]; cbn; auto.
+Qed.
+
+Definition flip_post (p c : list gene) : Prop :=
+  length c = length p /\
+  forall i, nth_error c i = nth_error p i \/ nth_error c i = option_map flip_gene (nth_error p i).
+
+Lemma wp_mutFlipBit p indpb : wp (mutFlipBit p indpb) (flip_post p).
+Proof.
+  unfold mutFlipBit. unfold zlen.
+  apply (wp_for_each (fun (k : nat) (l : list gene) =>
+           length l = length p /\
+           forall i, ((i < k)%nat -> nth_error l i = nth_error p i \/ nth_error l i = option_map flip_gene (nth_error p i)) /\
+                     ((k <= i)%nat -> nth_error l i = nth_error p i))).
+  - split; [reflexivity|]. intro i. split; intro; [lia|reflexivity].
+  - intros k i l Hk [L H]. apply nth_error_py_range in Hk. destruct Hk as [-> Hk].
+    apply wp_bind. apply wp_random. intro u. destruct (qltb u indpb).
+    + apply wp_bind. apply wp_getI; [unfold zlen; lia|]. intros x Ex.
+      apply wp_setI; [unfold zlen; lia|]. rewrite Nat2Z.id in *.
+      split; [now rewrite set_nth_length|]. intro i. rewrite nth_error_set_nth.
+      destruct (Nat.eqb_spec i k) as [->|Hne].
+      * replace (k <? length l)%nat with true by (symmetry; apply Nat.ltb_lt; lia).
+        split; intro; [|lia]. right. destruct (H k) as [_ Hb]. rewrite <- (Hb (le_n k)), Ex. reflexivity.
+      * destruct (H i) as [Ha Hb]. split; intro Hi.
+        -- destruct (Nat.lt_ge_cases i k) as [Hlt|Hge]; [exact (Ha Hlt)|lia].
+        -- apply Hb; lia.
+    + apply wp_ret. split; [exact L|]. intro i. destruct (H i) as [Ha Hb]. split; intro Hi.
+      * destruct (Nat.lt_ge_cases i k) as [Hlt|Hge]; [exact (Ha Hlt)|]. left. apply Hb. lia.
+      * apply Hb. lia.
+  - intros l [L H]. rewrite py_range_length in H. split; [exact L|].
+    intro i. destruct (H i) as [Ha Hb].
+    destruct (Nat.lt_ge_cases i (length p)) as [Hlt|Hge]; [exact (Ha Hlt)|left; exact (Hb Hge)].
+Qed.
+
+(* ------------------------------------------------------------------ mutUniformInt *)
+Definition bound_at (b : bound) (i : nat) : Z :=
+  match b with BScalar z => z | BSeq l => nth i l 0 end.
+Definition bound_covers (b : bound) (n : nat) : Prop :=
+  match b with BScalar _ => True | BSeq l => (n <= length l)%nat end.
+
+Lemma nth_error_zip {A B} (a : list A) (b : list B) k :
+  nth_error (zip a b) k = match nth_error a k, nth_error b k with
+                          | Some x, Some y => Some (x, y) | _, _ => None end.
+Proof.
+  revert b k; induction a as [|x a IH]; intros [|y b] [|k]; cbn; try reflexivity.
+  - now destruct (nth_error a k).
+  - apply IH.
+Qed.
+
+Lemma nth_repeat_lt {A} (z d : A) n i : (i < n)%nat -> nth i (repeat z n) d = z.
+Proof. revert i; induction n as [|n IH]; intros [|i] H; cbn; try lia; auto. apply IH; lia. Qed.
+
+Lemma wp_expand_bound b n (Q : list Z -> Prop) : bound_covers b n ->
+  (forall l, (n <= length l)%nat -> (forall i, (i < n)%nat -> nth i l 0 = bound_at b i) -> Q l) ->
+  wp (expand_bound b (Z.of_nat n)) Q.
+Proof.
+  intros Hc H. destruct b as [z|l]; cbn [expand_bound bound_covers] in *.
+  - apply wp_ret. apply H; [rewrite repeat_length; lia|].
+    intros i Hi. cbn. rewrite Nat2Z.id. now apply nth_repeat_lt.
+  - replace (zlen l <? Z.of_nat n) with false by (unfold zlen; lia).
+    apply wp_ret. apply H; [exact Hc|]. reflexivity.
+Qed.
+
+Definition uniform_int_post (p : list Z) (low up : bound) (c : list Z) : Prop :=
+  length c = length p /\
+  forall i x, nth_error p i = Some x ->
+    exists y, nth_error c i = Some y /\ (y = x \/ bound_at low i <= y <= bound_at up i).
+
+Lemma wp_mutUniformInt p low up indpb :
+  bound_covers low (length p) -> bound_covers up (length p) ->
+  (forall i, (i < length p)%nat -> bound_at low i <= bound_at up i) ->
+  wp (mutUniformInt p low up indpb) (uniform_int_post p low up).
+Proof.
+  intros Cl Cu Hle. unfold mutUniformInt. unfold zlen.
+  apply wp_bind. apply wp_expand_bound; [exact Cl|]. intros lo Llo Hlo.
+  apply wp_bind. apply wp_expand_bound; [exact Cu|]. intros hi Lhi Hhi.
+  set (n := length p) in *.
+  assert (Hidx : forall k e, nth_error (zip (py_range (Z.of_nat n)) (zip lo hi)) k = Some e ->
+                 (k < n)%nat /\ e = (Z.of_nat k, (bound_at low k, bound_at up k))).
+  { intros k e He. rewrite !nth_error_zip in He.
+    destruct (nth_error (py_range (Z.of_nat n)) k) as [i|] eqn:E1; [|discriminate].
+    apply nth_error_py_range in E1. destruct E1 as [-> Hk].
+    rewrite (nth_error_nth' lo 0), (nth_error_nth' hi 0) in He by lia.
+    rewrite Hlo, Hhi in He by exact Hk. split; [exact Hk|congruence]. }
+  assert (Hlen : length (zip (py_range (Z.of_nat n)) (zip lo hi)) = n).
+  { rewrite !zip_length, py_range_length. lia. }
+  apply (wp_for_each (fun (k : nat) (l : list Z) =>
+           length l = n /\
+           forall i x, nth_error p i = Some x ->
+             exists y, nth_error l i = Some y /\
+               (y = x \/ ((i < k)%nat /\ bound_at low i <= y <= bound_at up i)))).
+  - split; [reflexivity|]. intros i x Hx. exists x. auto.
+  - intros k e l Hk [L H]. apply Hidx in Hk. destruct Hk as [Hk ->].
+    apply wp_bind. apply wp_random. intro u. destruct (qltb u indpb).
+    + apply wp_bind. apply wp_randint; [apply Hle; exact Hk|]. intros v Hv.
+      apply wp_setI; [unfold zlen; lia|]. rewrite Nat2Z.id.
+      split; [now rewrite set_nth_length|]. intros i x Hx. rewrite nth_error_set_nth.
+      destruct (Nat.eqb_spec i k) as [->|Hne].
+      * replace (k <? length l)%nat with true by (symmetry; apply Nat.ltb_lt; lia).
+        exists v. split; [reflexivity|]. right. split; [lia|exact Hv].
+      * destruct (H i x Hx) as (y & Ey & Hy). exists y. split; [exact Ey|].
+        destruct Hy as [->|[Hik Hb]]; [left; reflexivity|right; split; [lia|exact Hb]].
+    + apply wp_ret. split; [exact L|]. intros i x Hx.
+      destruct (H i x Hx) as (y & Ey & Hy). exists y. split; [exact Ey|].
+      destruct Hy as [->|[Hik Hb]]; [left; reflexivity|right; split; [lia|exact Hb]].
+  - intros l [L H]. split; [exact L|]. intros i x Hx.
+    destruct (H i x Hx) as (y & Ey & Hy). exists y. split; [exact Ey|]. tauto.
+Qed.
